@@ -1281,7 +1281,9 @@ def is_linear_tree(fd):
     if t == 'addconst':
         return fd['c'] == 0 and is_linear_tree(fd['f'])
     if t == 'quadpert':
-        return fd['a'] == 0 and is_linear_tree(fd['f'])
+        # (with a non-zero constant the functional is affine, not linear)
+        return (fd['a'] == 0 and not fd.get('c') and
+                is_linear_tree(fd['f']))
     if t == 'conj':
         return False
     return False
